@@ -33,6 +33,9 @@ type pathState struct {
 	tt     *TermTable
 	solver *Solver
 	pc     []*Term
+	known     map[*Term]bool
+	lastModel map[string]uint64
+	modelAge  int
 
 	prefix    []int64
 	pos       int
@@ -60,9 +63,11 @@ type pathState struct {
 	panicLive   bool
 
 	fnCalls map[*ssa.Function]int
+	profile map[*ssa.Function]int64
 
 	obs              []observation
 	initPhase        bool
+	permuteMaps      bool
 	initProblems     []string
 	pendingViolation *Violation
 	boundIsViolation    bool
@@ -92,53 +97,124 @@ func (p *pathState) addPC(t *Term) {
 	}
 	p.pc = append(p.pc, t)
 	p.solver.Assert(p.tt, t)
+	if p.lastModel != nil {
+		memo := map[*Term]uint64{}
+		if t.Eval(p.lastModel, memo) == 0 {
+			p.lastModel = nil
+		}
+	}
+	p.modelAge++
+	if p.lastModel == nil && p.pos >= len(p.prefix) && p.modelAge >= 1 {
+		p.modelAge = 0
+		p.refreshModel()
+	}
 }
 
 // decideBool resolves a symbolic condition, forking when both sides are feasible.
+// Two shortcuts avoid solver calls: literals already on the path condition are
+// answered from a table, and the last model of the path condition tells which
+// side is certainly feasible (only the other side is queried).
 func (p *pathState) decideBool(c *Term) bool {
 	if c.op == OpConst {
 		return c.c != 0
+	}
+	if v, ok := p.known[c]; ok {
+		return v
 	}
 	if p.pos < len(p.prefix) {
 		d := p.prefix[p.pos]
 		p.pos++
 		p.decisions = append(p.decisions, d)
-		if d != 0 {
-			p.addPC(c)
-		} else {
-			p.addPC(p.tt.BNot(c))
-		}
+		p.take(c, d != 0)
 		return d != 0
 	}
 	p.transitions++
 	nc := p.tt.BNot(c)
-	rt := p.solver.Check(p.tt, c)
-	if rt == Unsat {
-		// PC is satisfiable by invariant, so ¬c is feasible; c is implied false
-		p.pos++
-		p.decisions = append(p.decisions, 0)
-		p.addPC(nc)
-		return false
+	var rt, rf SatResult
+	if p.lastModel != nil {
+		memo := map[*Term]uint64{}
+		if c.Eval(p.lastModel, memo) != 0 {
+			rt = Sat
+			rf = p.checkKeepModel(nc)
+		} else {
+			rf = Sat
+			rt = p.checkKeepModel(c)
+		}
+	} else {
+		rt = p.checkKeepModel(c)
+		if rt == Unsat {
+			rf = Sat
+		} else {
+			rf = p.checkKeepModel(nc)
+		}
 	}
-	rf := p.solver.Check(p.tt, nc)
 	if rt == Unknown || rf == Unknown {
 		p.unknowns++
 	}
-	if rf == Unsat {
+	switch {
+	case rt == Unsat && rf == Unsat:
+		panic(pathEnd{StInfeasible, "path condition unsatisfiable"})
+	case rt == Unsat:
+		p.pos++
+		p.decisions = append(p.decisions, 0)
+		p.take(c, false)
+		return false
+	case rf == Unsat:
 		p.pos++
 		p.decisions = append(p.decisions, 1)
-		p.addPC(c)
+		p.take(c, true)
 		return true
 	}
-	// both feasible (or unknown, explored conservatively)
 	sib := make([]int64, len(p.decisions)+1)
 	copy(sib, p.decisions)
 	sib[len(p.decisions)] = 0
 	p.newWork = append(p.newWork, sib)
 	p.pos++
 	p.decisions = append(p.decisions, 1)
-	p.addPC(c)
+	p.take(c, true)
 	return true
+}
+
+// take records the outcome of a decision on c.
+func (p *pathState) take(c *Term, v bool) {
+	if v {
+		p.addPC(c)
+	} else {
+		p.addPC(p.tt.BNot(c))
+	}
+	p.known[c] = v
+	if c.op == OpBNot {
+		p.known[c.args[0]] = !v
+	} else {
+		p.known[p.tt.BNot(c)] = !v
+	}
+	if p.lastModel != nil {
+		memo := map[*Term]uint64{}
+		if (c.Eval(p.lastModel, memo) != 0) != v {
+			p.lastModel = nil
+		}
+	}
+}
+
+// checkKeepModel decides PC ∧ extra and does not disturb lastModel (which is a
+// model of PC alone).
+func (p *pathState) checkKeepModel(extra *Term) SatResult {
+	return p.solver.Check(p.tt, extra)
+}
+
+// refreshModel obtains a model of the current path condition.
+func (p *pathState) refreshModel() {
+	vars := p.tt.Vars
+	if len(vars) == 0 {
+		p.lastModel = map[string]uint64{}
+		return
+	}
+	r, m := p.solver.Model(p.tt, nil, vars)
+	if r == Sat {
+		p.lastModel = m
+	} else {
+		p.lastModel = nil
+	}
 }
 
 // decideValue concretises a bit-vector term by forking over its feasible values.
